@@ -55,3 +55,10 @@ def run(ctx, chk):
     chk.floor("ALIAS-RW", "output/input pairs of single points", c["palias"], 35)
     chk.floor("CONST-IN", "const pointer parameters of the module", c["const"], 60)
     analyse(ctx, ctx.program("P255"), chk)
+    if chk.tier == "thorough":
+        # the extended and the affine coordinate systems (the default is projective): the t coordinate is live under EXTND
+        from .. import facts
+        for name, meth in (("EDEXT", "EXTND;LWNAF;COMBS;INTER"), ("EDBAS", "BASIC;LWNAF;COMBS;INTER")):
+            facts.CONFIGS.setdefault(name, ["-DFP_PRIME=255", "-DED_METHD=" + meth])
+            analyse(ctx, ctx.program(name), chk)
+            ctx._prog.pop(name, None)
